@@ -7,3 +7,5 @@ pub mod compare;
 pub mod inputs;
 pub mod pools;
 pub mod history;
+pub mod timeout;
+pub mod concurrent;
